@@ -11,10 +11,12 @@ Decided on the real MIR:
      negotiated table is a protocol error and hands nothing over; the pieces of a DATA frame are handed over in order,
      each of 1..read_frame_size bytes, summing to the announced length; every piece holds one frame-count permit and
      exactly its size in buffer-size permits, acquired before its buffer is allocated (flow control at intake).
-NOT decided (outside the claim): everything that depends on the interplay of tasks — that permits are released only
-when the application consumed the data (ReadReusableStream), the OPEN/CLOSE state machine and end-of-stream visibility
-(reusable_stream.rs), write-side framing and flushing, ordering across the writer task, and the buffer bound under a peer
-that ignores flow control over more than one frame."""
+ (C) `ReadStream::read_exact` (props/c14_read.py): data is delivered completely and in order (cached rest of a frame
+     first, a frame dropped only when fully consumed — which is also when its read permit is released), end-of-stream is
+     sticky at CLOSE and a read never continues past it.
+NOT decided (outside the claim): everything that depends on the interplay of tasks — the OPEN/CLOSE handshake and lock
+hand-over between transient streams (reusable_stream.rs), write-side framing and flushing, ordering across the writer
+task, and the buffer bound under a peer that ignores flow control over many frames."""
 import time
 import z3
 from mirsym.core import (Exec, explore, solve, Num, Agg, Ref, Cell, Opaque, Unmodelled, BoundExceeded, num_cmp, to_z3_bool, UNIT)
@@ -269,4 +271,9 @@ def run(rep, db, tier, seed):
             rep.add(Obligation(name, 'inconclusive', f'{type(u).__name__}: {u}'[:700]))
     handle('stream-count negotiation (Mux::spawn_streams)', check_spawn)
     handle('inbound frame step (Mux::process_inbound_frames): isolation, piece sizes, intake flow control', check_dispatch)
+    try:
+        from props import c14_read
+        c14_read.run(rep, db, tier)
+    except Exception as u:
+        rep.add(Obligation('ReadStream::read_exact', 'inconclusive', f'{type(u).__name__}: {u}'[:600]))
     rep.extra['explanation'] = 'sequential kernel of the multiplexer on the real MIR; task-interplay guarantees of C14 are NOT decided'
